@@ -362,6 +362,16 @@ func gen(g *hx.Gen) {
 		}
 	}
 
+	// leaf counts up to pact.MaxTxPerBlock (10000): 14 levels are not enough above 8192 leaves
+	big := []int{8193 + r.Intn(1807)}
+	if !g.Quick() {
+		big = []int{8192, 8193, 9999, 10000, 8193 + r.Intn(1807)}
+	}
+	for _, n := range big {
+		leaves := r.Bytes(32 * n)
+		g.Emit("root %s", hx.Hex(leaves))
+	}
+
 	// ---- CheckBlockSanity
 	c := getChain()
 	_ = c
